@@ -101,6 +101,9 @@ func (f *Frame) step(st *State, instr ssa.Instruction) bool {
 		f.regs[ins] = f.val(ins.X)
 		return true
 	case *ssa.MakeInterface:
+		if lit, ok := ins.X.(*ssa.Function); ok && x.OnFuncValue != nil {
+			x.OnFuncValue(f, st, lit)
+		}
 		v := f.val(ins.X)
 		f.regs[ins] = &Struct{[]Value{x.typeID(ins.X.Type()), x.box(v, ins.X.Type())}}
 		return true
